@@ -62,6 +62,8 @@ def handle (st : DState) (line : String) : DState × String :=
   | ["mime", hex] =>
     let p := Mime.parse (parseNats hex)
     (st, s!"{showNats p.raw} {showNats p.header} {showNats p.body}")
+  | ["partial", hex, o, n] =>
+    (st, showNats (Mime.getPartial (parseNats hex) o.toNat! (if n == "-" then none else some n.toNat!)))
   | ["seqflat", mx, elems] =>
     -- elems: n | * | a:b, separated by ';'
     let idx (t : String) : Seq.Idx := if t == "*" then .star else .num t.toNat!
